@@ -41,15 +41,21 @@ theorem inv_addGraph (d : DStore) (g : String) (ig : IGraph) (h : Inv d) (hwf : 
       simp only [IGraph.WF, List.all_eq_true, Bool.and_eq_true, decide_eq_true_eq] at hwf
       simpa using hwf e he
 
-theorem inv_step (op : Op) (d : DStore) (h : Inv d) (hwf : op.WF = true) : Inv (step op d).2 := by
-  have lifted : ∀ (o : Op), o.WF = true → Inv (lift o.target (Store.step o) d).2 :=
-    fun o ho => inv_put d _ _ h (Store.inv_step o _ (h _) ho)
+theorem sub_delAll (d : DStore) (g : String) : sub ⟨[], d.ids⟩ g = ⟨[], [], (AMap.get g d.ids).getD 1⟩ := by
+  simp [sub, AMap.get]
+
+theorem inv_step (op : Op) (d : DStore) (h : Inv d) : Inv (step op d).2 := by
+  have lifted : ∀ (o : Op), Inv (lift o.target (Store.step o) d).2 :=
+    fun o => inv_put d _ _ h (Store.inv_step o _ (h _))
+  have hwf : True := trivial
   cases op with
-  | addGraph g ig => exact inv_addGraph d g ig h hwf
+  | addGraph g ig => exact inv_addGraph d g ig.close h ig.close_WF
+  | delAllGraphs => intro g; simp only [step, delAllGraphs, sub_delAll]; exact inv_empty _
   | addGraphDirect g ig =>
     refine inv_put d g _ h (Store.inv_appendGraph _ _ _ (inv_empty 1) ?_)
     intro e he
-    simp only [Op.WF, IGraph.WF, List.all_eq_true, Bool.and_eq_true, decide_eq_true_eq] at hwf
+    have hwf := ig.close_WF
+    simp only [IGraph.WF, List.all_eq_true, Bool.and_eq_true, decide_eq_true_eq] at hwf
     exact hwf e he
   | deleteGraph g => exact inv_put d g _ h (inv_empty _)
   | clone g g2 => exact inv_addGraph d g2 _ h (extractGraph_wf d h g)
@@ -60,24 +66,24 @@ theorem inv_step (op : Op) (d : DStore) (h : Inv d) (hwf : op.WF = true) : Inv (
     · exact h
     · split <;> exact h
     · exact h
-  | addNode g nid label props => exact lifted _ hwf
-  | deleteNode g nid => exact lifted _ hwf
-  | addLink g a rel b props => exact lifted _ hwf
-  | updateNodeProperty g nid k v => exact lifted _ hwf
-  | unsetNodeProperty g nid k => exact lifted _ hwf
-  | updateNodesProperty g k v => exact lifted _ hwf
-  | updateNodeProperties g nid props => exact lifted _ hwf
-  | updateLinkProperty g a b kind k v => exact lifted _ hwf
-  | unsetLinkProperty g a b kind k => exact lifted _ hwf
-  | updateLinkProperties g a b kind props => exact lifted _ hwf
-  | getNodeProperties g nid => exact lifted _ hwf
-  | getLinkProperties g a b => exact lifted _ hwf
-  | listAllNodeIds g => exact lifted _ hwf
-  | nodesByClass g label => exact lifted _ hwf
-  | nodesByClassAndType g label ntype => exact lifted _ hwf
-  | nodeExists g nid label => exact lifted _ hwf
-  | graphExists g => exact lifted _ hwf
-  | checkNodeUnique g label name => exact lifted _ hwf
+  | addNode g nid label props => exact lifted _
+  | deleteNode g nid => exact lifted _
+  | addLink g a rel b props => exact lifted _
+  | updateNodeProperty g nid k v => exact lifted _
+  | unsetNodeProperty g nid k => exact lifted _
+  | updateNodesProperty g k v => exact lifted _
+  | updateNodeProperties g nid props => exact lifted _
+  | updateLinkProperty g a b kind k v => exact lifted _
+  | unsetLinkProperty g a b kind k => exact lifted _
+  | updateLinkProperties g a b kind props => exact lifted _
+  | getNodeProperties g nid => exact lifted _
+  | getLinkProperties g a b => exact lifted _
+  | listAllNodeIds g => exact lifted _
+  | nodesByClass g label => exact lifted _
+  | nodesByClassAndType g label ntype => exact lifted _
+  | nodeExists g nid label => exact lifted _
+  | graphExists g => exact lifted _
+  | checkNodeUnique g label name => exact lifted _
 
 theorem frame_addGraph (d : DStore) (g g' : String) (ig : IGraph) (hne : g' ≠ g) : sub (addGraph g ig d).2 g' = sub d g' := by
   unfold addGraph
@@ -87,11 +93,13 @@ theorem frame_addGraph (d : DStore) (g g' : String) (ig : IGraph) (hne : g' ≠ 
     · rfl
     · exact sub_put_ne d g g' _ hne
 
-theorem frame_step (op : Op) (d : DStore) (g' : String) (hne : g' ≠ op.target) : sub (step op d).2 g' = sub d g' := by
+theorem frame_step (op : Op) (d : DStore) (g' : String) (hne : g' ≠ op.target) (hall : op.isDelAll = false) :
+    sub (step op d).2 g' = sub d g' := by
   have lifted : ∀ (o : Op), g' ≠ o.target → sub (lift o.target (Store.step o) d).2 g' = sub d g' :=
     fun o ho => sub_put_ne d _ g' _ ho
   cases op with
-  | addGraph g ig => exact frame_addGraph d g g' ig hne
+  | delAllGraphs => simp [Op.isDelAll] at hall
+  | addGraph g ig => exact frame_addGraph d g g' ig.close hne
   | addGraphDirect g ig => exact sub_put_ne d g g' _ hne
   | deleteGraph g => exact sub_put_ne d g g' _ hne
   | clone g g2 => exact frame_addGraph d g2 g' _ hne
